@@ -128,6 +128,10 @@ def correspondence(ctx):
                  ("ms", len(datasets), nref, tuple(nmov), br, method))
         Q, _Rm = qrs[-1][1]
         Rinv = [np.asarray(o) for (_a, o) in invs]
+        if len(Rinv) != ordmax + 1:
+            # inv(R[:n,:n]) no longer formed explicitly by the code (e.g. np.linalg.solve): float inverse of the recorded factor
+            Rinv = [np.linalg.inv(_Rm[:n, :n]) for n in range(ordmax + 1)]
+            ctx.count("fast_inverse_not_recorded")
         ndof = nref + sum(nmov)
         mm = ctx.model("fast_from_obs", Obs=Rmat(Obs_all), Q=Rmat(Q), Rinv=[Rmat(x) if x.size else [] for x in Rinv], l=ndof, ordmax=ordmax)
 
@@ -150,6 +154,11 @@ def _ms_case(ctx, small=False):
         nset = rng.randint(2, 3 if small else 4)
         nref = rng.randint(1, 2 if small else 3)
         nmov = [rng.randint(1, 2 if small else 4) for _ in range(nset)]
+        if not small and rng.random() < 0.25:
+            # as many modes as sensors in total: the merged mode-shape matrix is square
+            nset, nref = 2, rng.randint(1, 2)
+            nmov = [1, rng.randint(1, 2)]
+            m = nref + sum(nmov)
         nglob = nref + sum(nmov)
         fs = rng.choice([10.0, 100.0, 50.0])
         cs = rng.random() < 0.4
@@ -301,6 +310,24 @@ def oracle(ctx, scale):
                 ctx.violation("ms:inaccurate", f"{cls.__name__}: mode {kk}: rel freq err {efn:.2e}, damping err {exi:.2e}, 1-MAC {1 - mc:.2e} (global shape over all sensors)", inp)
                 return
         ctx.count(f"runs_{cls.__name__}" + ("_weakref" if getattr(S, "weak", None) else ""))
+        # extraction at order 2m through the setup: the global shapes over all sensors (references, then roving by setup)
+        order = np.argsort(S.fn)
+        try:
+            ms.mpe("a", sel_freq=[float(S.fn[i]) for i in order], order=m2, rtol=1e-3)
+        except Exception as e:  # noqa: BLE001
+            ctx.violation(f"ms:mpe-raises-{type(e).__name__}", f"{cls.__name__}.mpe at order 2m raises {type(e).__name__}: {str(e)[:100]}", inp)
+            return
+        r2 = alg.result
+        ctx.oracle_cases += 1
+        if r2.Fn is None or len(r2.Fn) != S.m or np.shape(r2.Phi) != (S.phi.shape[0], S.m):
+            ctx.violation("ms:mpe-shape", f"{cls.__name__}.mpe: {None if r2.Fn is None else len(r2.Fn)} modes, Phi shape {np.shape(r2.Phi)}; expected {S.m} modes over {S.phi.shape[0]} sensors", inp)
+            return
+        for j, i in enumerate(order):
+            mc = max(sysgen.mac(r2.Phi[:, j], S.phi[:, i]), sysgen.mac(r2.Phi[:, j], np.conj(S.phi[:, i])))
+            if abs(r2.Fn[j] - S.fn[i]) / S.fn[i] > 1e-7 or abs(r2.Xi[j] - S.xi[i]) > 1e-7 or 1 - mc > 1e-7:
+                ctx.violation("ms:mpe-inaccurate", f"{cls.__name__}.mpe: extracted mode {j}: f {r2.Fn[j]} vs {S.fn[i]}, xi {r2.Xi[j]} vs {S.xi[i]}, MAC {mc} (global shape)", inp)
+                return
+        ctx.count("mpe_square_shape_matrix" if S.phi.shape[0] == S.m else "mpe_rectangular_shape_matrix")
 
 
 def replay(rec):
